@@ -119,6 +119,13 @@ class ConcJobs(Jobs):
         managed = [ns for ns in rv.procs]
         return [ConciliationMonitor(cfg['strategy'], managed)] + mons
 
+    def build(self, cfg):
+        w = super().build(cfg)
+        for m in w.monitors:
+            if isinstance(m, ConciliationMonitor):
+                m.reelected = False     # the elections of the warm-up do not count
+        return w
+
     def wants_closure(self, w, ev, cfg):
         return True
 
@@ -221,6 +228,10 @@ def configs(t):
     out.append(base('two-conflicts-SENICIDE', 'SENICIDE', n=2, extra_groups={}, watch=['A:a', 'A:b'],
                     setup=two_setup + [['tick', i] for i in (0, 1)] * 3,
                     user_events=[['ustart', 1, 'A:a'], ['ustart', 1, 'A:b']], T=2, U=2))
+    for st in ('STOP', 'RESTART', 'RUNNING_FAILURE'):
+        out.append(base(f'two-conflicts-{st}', st, n=2, extra_groups={}, watch=['A:a', 'A:b'],
+                        setup=two_setup + [['tick', i] for i in (0, 1)] * 3,
+                        user_events=[['ustart', 1, 'A:a'], ['ustart', 1, 'A:b']], T=2, U=2))
     out.append(base('three-copies-INFANTICIDE', 'INFANTICIDE', extra_groups={}, watch=['A:a'],
                     setup=[['rpc', 0, 'start_process', ['CONFIG', 'A:a', '', False]]] + [['tick', i] for i in (0, 1, 2)] * 3 +
                           [['ustart', 1, 'A:a']] + [['tick', i] for i in (0, 1, 2)] * 0,
